@@ -337,6 +337,8 @@ fn run_single_program(
                 }
             }
 
+            #[cfg(cicada_verif)]
+            crate::verif_hooks::delay_point(&format!("child{}_pre_setpgid", idx_cmd));
             if idx_cmd == 0 {
                 unsafe {
                     let pid = libc::getpid();
@@ -522,6 +524,8 @@ fn run_single_program(
         }
         Ok(ForkResult::Parent { child, .. }) => {
             let pid: i32 = child.into();
+            #[cfg(cicada_verif)]
+            crate::verif_hooks::delay_point(&format!("parent_after_fork{}", idx_cmd));
             if idx_cmd == 0 {
                 *pgid = pid;
                 unsafe {
